@@ -59,6 +59,9 @@ CF = "ast2ast.constantfolder.ConstantFolder"
 
 
 def run(ctx: Ctx):
+    from . import c07 as _c07
+
+    ctx.section(_c07.check_rebinding, ctx, ctx.repo.func(_c07.BIND))
     from .. import memo as _memo
 
     ctx.section(_memo.check_memo_keys, ctx, ('ast2ast.', 'ast2logic.', 'types.'))
